@@ -852,6 +852,91 @@ def user_calls(body):
         yield bb, t, fn
 
 
+LOG_ARG_SAFE_LAST = {
+    'elapsed', 'now', 'clone', 'to_string', 'to_owned', 'deref', 'as_ref', 'as_str', 'as_path', 'display', 'len', 'is_empty',
+    'as_secs', 'as_millis', 'as_micros', 'as_nanos', 'as_secs_f64', 'as_secs_f32', 'subsec_nanos', 'subsec_millis', 'subsec_micros',
+    'is_some', 'is_none', 'is_ok', 'is_err', 'current', 'id', 'name', 'errno', 'kind', 'raw_os_error', 'tv_sec', 'tv_nsec',
+    'fmt', 'borrow', 'to_str', 'to_string_lossy', 'as_bytes', 'into', 'from', 'default', 'iter', 'keys', 'values', 'get',
+    'saturating_sub', 'saturating_add', 'checked_sub', 'checked_add', 'wrapping_sub', 'wrapping_add', 'abs', 'min', 'max',
+    'saturating_duration_since', 'checked_duration_since', 'panicking', 'as_ptr', 'is_null', 'eq', 'ne', 'cmp', 'partial_cmp',
+}
+
+
+def log_argument_hazards(fb, body):
+    """[(where, description)] for operations evaluated as *arguments of a tracing / log macro* in `body` that can panic or
+    have an effect: such an operation runs only when the event's level is enabled (always, for error!/warn!/info! in the
+    shipped build; never, for debug!/trace! with release_max_level_info), so it must be neither something the function's
+    behaviour depends on nor something that can take the thread down.  Found as call / assert terminators with a plain
+    (non-expansion) span inside the region a tracing expansion's level test guards."""
+    out = []
+    seen_regions = set()
+    for i, blk in enumerate(body.blocks):
+        t = blk['term']
+        if blk['cleanup'] or t['k'] != 'switch' or not mir.in_tracing(blk['tspan']):
+            continue
+        ip = body.ipdom(i)
+        if ip is None:
+            continue
+        region, work = set(), [x for _, x in body.succ_edges(i)]
+        while work:
+            x = work.pop()
+            if x == ip or x in region or body.blocks[x]['cleanup']:
+                continue
+            region.add(x)
+            work.extend(body.succs(x))
+        for x in sorted(region):
+            if x in seen_regions:
+                continue
+            seen_regions.add(x)
+            b2 = body.blocks[x]
+            sp = b2['tspan']
+            if sp.get('exp'):
+                continue            # part of the macro's own expansion (format_args!, the callsite machinery)
+            t2 = b2['term']
+            if t2['k'] == 'assert':
+                out.append((body.where(x), 'a checked operation (%s) evaluated inside a log macro argument' % t2['msg']))
+            elif t2['k'] == 'call':
+                fn = t2['func'].get('fn')
+                nm = mir.callee_name(fn) if fn else 'indirect call'
+                last = nm.split('::')[-1]
+                if nm.startswith(('tracing', 'log::', 'std::fmt', 'core::fmt')) or last in LOG_ARG_SAFE_LAST:
+                    continue
+                nb = fb.body(nm) if fn else None
+                if nb is not None and not list(user_calls(nb)) and not any(bk['term']['k'] == 'assert' for bk in nb.blocks if not bk['cleanup']):
+                    continue        # a trivial workspace accessor
+                out.append((body.where(x), 'the call %s made inside a log macro argument (it can panic or has an effect, and '
+                            'runs only when that log level is enabled)' % nm))
+    return out
+
+
+def closure_of(fb, roots):
+    """the workspace bodies reachable from `roots` (class-hierarchy resolution of trait calls, tracing expansions skipped)"""
+    out = {}
+    for r in roots:
+        if r is None:
+            continue
+        out[r.path] = r
+        for ob, bb, t, fn in reachable_calls(fb, r):
+            out[ob.path] = ob
+            for nb in callee_bodies(fb, fn):
+                out[nb.path] = nb
+    return [out[k] for k in sorted(out)]
+
+
+def log_hazard_obligations(fb, chk, rule, roots, what):
+    """`rule`: the arguments of log macros in everything reachable from `roots` are inert (log_argument_hazards)"""
+    bodies = closure_of(fb, roots)
+    n = 0
+    for b in bodies:
+        hz = log_argument_hazards(fb, b)
+        n += 1
+        for where, desc in hz:
+            chk.ob(rule, 'log-arguments-are-inert:%s' % b.path.split('::')[-1], False, where, desc + ' -- in %s' % what)
+    chk.ob(rule, 'log-arguments-are-inert', True, roots[0].where(0) if roots and roots[0] is not None else '',
+           '%d function(s) of %s scanned: nothing evaluated as a log macro argument can panic or has an effect' % (n, what),
+           nontrivial=bool(n))
+
+
 def find_one(chk, rule, bodies, what):
     if not bodies:
         chk.missing(rule, what)
